@@ -49,4 +49,18 @@ theorem hub_facts_safe : BstreamVerif.Facts.hub.Safe = true := by decide
 theorem push_never_blocks (cap lenAtCheck lenAtSend : Nat) (hcheck : lenAtCheck ≠ cap) (hle : lenAtCheck ≤ cap)
     (hshrink : lenAtSend ≤ lenAtCheck) : lenAtSend < cap := by omega
 
+/-- **burst ++ every later event, for every interleaving**: a hub subscription computes its burst and registers itself
+    while it holds the forkable's lock (read side; the feeder's `ProcessBlock` holds the write side — `hub_facts_safe`
+    regenerates this from /repo): in the interleaving model of `Conc.Locks` (the feeder pushes events 0, 1, 2, …; the
+    subscriber snapshots what was pushed so far and registers, atomically) the events fanned out to the subscription
+    are exactly those pushed since its snapshot, for every schedule -/
+theorem hub_subscription_is_gapless (sched : List BstreamVerif.Conc.Locks.SAct) :
+    BstreamVerif.Conc.Locks.lockGapless (BstreamVerif.Conc.Locks.lockRun true BstreamVerif.Conc.Locks.lockInit sched) :=
+  BstreamVerif.Conc.Locks.locked_gapless sched
+
+/-- … and the counter-schedule when burst and registration are not atomic with the feeder -/
+theorem hub_subscription_unlocked_loses_an_event :
+    ¬ BstreamVerif.Conc.Locks.lockGapless (BstreamVerif.Conc.Locks.lockRun false BstreamVerif.Conc.Locks.lockInit
+      [.snapshot, .push, .register, .push]) := BstreamVerif.Conc.Locks.unlocked_loses
+
 end BstreamVerif.Props.C08
